@@ -13,7 +13,8 @@ that is entered after the test.
 import ast
 import copy
 
-from .exprnorm import canon
+from . import alias as _alias
+from .exprnorm import canon, _inplace_written
 
 _NEG = {ast.Lt: ast.GtE, ast.GtE: ast.Lt, ast.Gt: ast.LtE, ast.LtE: ast.Gt, ast.Eq: ast.NotEq, ast.NotEq: ast.Eq,
         ast.Is: ast.IsNot, ast.IsNot: ast.Is, ast.In: ast.NotIn, ast.NotIn: ast.In}
@@ -159,8 +160,18 @@ def facts_at(func, node):
     def contains(st):
         return any(x is node for x in ast.walk(st))
 
+    grp = _alias.groups(func)
+    # lowered Cython: `+x` is `&x`; a store through a pointer that may point at x changes the VALUE of x
+    addr_taken = {n.operand.id for n in ast.walk(func) if isinstance(n, ast.UnaryOp) and isinstance(n.op, ast.UAdd) and isinstance(n.operand, ast.Name)}
+
     def kill(stmts_):
         names, stored = _rebound(stmts_)
+        for st_ in stmts_:
+            stored |= _inplace_written(st_)
+        if stored:
+            # the object may be known under other names as well (`u = v`, a view, a pointer)
+            stored = _alias.closure_of(stored, grp)
+            names |= stored & addr_taken
         if names or stored:
             facts[:] = [f for f in facts if not _mentions(f, names, stored)]
 
